@@ -60,10 +60,15 @@ impl Prop for C01 {
             !has || ((u.key.contains("@fn/L0") || u.key.contains("@top/L0")) && u.cfg.kv.is_empty())
         });
         if thorough {
+            // The repository's fixtures under the default configuration (their header configurations exercise
+            // opt-in rewrites, e.g. of doc-comment code blocks, for which the canonicaliser has rules only over
+            // corpus A's alphabet). A file that opts out as a whole (`#![rustfmt::skip]`) is not emitted through
+            // the API at all: C04's subject.
             for (name, text, kv) in super::c09::corpus_b() {
-                let mut cfg = crate::fmt::Cfg::new(2015);
-                cfg.kv = kv.into_iter().filter(|(k, _)| k != "reorder_impl_items").collect();
-                units.push(Unit { key: format!("fixture{name}"), text, cfg, extra: json!({"corpus": "B"}) });
+                if !kv.is_empty() || text.contains("#![rustfmt::skip]") {
+                    continue;
+                }
+                units.push(Unit { key: format!("fixture{name}"), text, cfg: crate::fmt::Cfg::new(2015), extra: json!({"corpus": "B"}) });
             }
         }
         units
